@@ -20,8 +20,11 @@ def run_one(sid):
         return res
     env = dict(os.environ, VERIF_REPO=repo, VERIF_EVID=os.path.join(tmp, "evid"))
     for p in PROPS:
-        c = subprocess.run([os.path.join(V, "check"), p, "quick"], cwd=V, env=env, capture_output=True, text=True)
-        vio = [l for l in c.stdout.splitlines() if l.startswith("VIOLATION")]
+        for attempt in range(2):
+            c = subprocess.run([os.path.join(V, "check"), p, "quick"], cwd=V, env=env, capture_output=True, text=True)
+            vio = [l for l in c.stdout.splitlines() if l.startswith("VIOLATION")]
+            if vio or c.returncode == 0:
+                break   # a non-zero exit without a VIOLATION line is a crash of the check (e.g. a timeout under load): retry once
         if vio:
             concrete = not vio[0].endswith("no-failing-input-found")
             what = ""
@@ -35,7 +38,7 @@ def run_one(sid):
                     pass
             res["checks"][p] = dict(rc=c.returncode, violation=True, concrete=concrete, what=what)
         else:
-            res["checks"][p] = dict(rc=c.returncode, violation=False, tail=c.stdout.strip().splitlines()[-1:] if c.returncode else None)
+            res["checks"][p] = dict(rc=c.returncode, violation=False, tail=(c.stdout + c.stderr).strip().splitlines()[-3:] if c.returncode else None)
     shutil.rmtree(tmp)
     return res
 
